@@ -5,6 +5,7 @@ import (
 	"errors"
 	"fmt"
 	"os"
+	"runtime"
 	"strings"
 	"time"
 
@@ -241,7 +242,11 @@ func runC16(r *Run, stratum string) *Violation {
 	defer simfs.SetFS(nil)
 	fs.MkdirAll(c16BaseL, 0o777)
 	fs.MkdirAll(c16BaseF, 0o777)
-	cacheSetVerify(false)
+	// channel.verifyCrc is a deployment knob of the leader's disk readers (sealed segments are checked, the segment
+	// still being written is not): varied per run, the property is the same under both settings
+	verify := backend != "mem" && g.Choose("verifycrc", 2) == 1
+	cacheSetVerify(verify)
+	defer cacheSetVerify(false)
 
 	logSize := int64(64 << g.Choose("logsize", 5))
 	mk := func(dir, name string) syncer.Channel {
@@ -298,7 +303,7 @@ func runC16(r *Run, stratum string) *Violation {
 		fLeft0, fRight0 = F.ch.GetOffsetRange(F.id)
 	}
 	lL, lR := L.ch.GetOffsetRange(idL)
-	r.Sample = fmt.Sprintf("%s leader{id=%s range=[%d,%d] snap=%v} follower{id=%s range=[%d,%d]} window=%d logSize=%d", stratum, tailID(idL), lL, lR, leaderSnap, tailID(F.id), fLeft0, fRight0, hub.Window, logSize)
+	r.Sample = fmt.Sprintf("%s leader{id=%s range=[%d,%d] snap=%v} follower{id=%s range=[%d,%d]} window=%d logSize=%d verifyCrc=%v", stratum, tailID(idL), lL, lR, leaderSnap, tailID(F.id), fLeft0, fRight0, hub.Window, logSize, verify)
 	r.Logf("C16 %s", r.Sample)
 	r.NonTriv = true
 
@@ -407,7 +412,7 @@ func runC16(r *Run, stratum string) *Violation {
 	for round := 0; round < 600 && c.viol == nil; round++ {
 		r.Settle()
 		poll()
-		if ended || caughtUp() {
+		if ended || (scen != "ahead" && caughtUp()) { // 'ahead': the follower's Run returns the offer after a 2 s pause
 			break
 		}
 		progressed := false
@@ -425,6 +430,10 @@ func runC16(r *Run, stratum string) *Violation {
 	r.Settle()
 	poll()
 
+	if !ended && os.Getenv("SIM_DEBUG_STACKS") == "1" {
+		buf := make([]byte, 1<<20)
+		fmt.Fprintf(os.Stderr, "%s\n", buf[:runtime.Stack(buf, true)])
+	}
 	if scen == "ahead" {
 		// the follower holds more than the leader: it is offered leadership and its cache stays untouched
 		if !ended || !errors.Is(runErr, syncer.ErrLeaderTakeover) {
